@@ -117,6 +117,37 @@ def eval_case(case: dict) -> dict:
                           again=again.lines[:20])
             if any(T.has_boundary(c) for c in _all_strings(case['content'])):
                 cnt['cases_with_line_boundaries'] = 1
+            # a block poured into another - as the whole content, appended to an empty block,
+            # or as the header - and both blocks going on with their own lives: the lines of
+            # each stay the pieces that were put into *it*
+            if exp_lines:
+                route = len(exp_lines) % 4
+
+                def pour():
+                    src = TB(list(exp_lines))
+                    if route == 0:
+                        dst = TB(src)
+                    elif route == 1:
+                        dst = TB().append(src)
+                    elif route == 2:
+                        dst = TB()
+                        dst += src
+                    else:
+                        dst = TB('body', header=src)
+                    return src, dst
+                cnt['blocks_poured_into_blocks'] = 1
+                src, dst = pour()
+                snap = list(src.lines)
+                dst.append('QZ-added-to-the-copy')
+                if src.lines != snap:
+                    _viol(out, 'source-block-changed-through-the-block-made-from-it', case,
+                          route=route, source=src.lines[:10])
+                src, dst = pour()
+                snap_lines, snap_str = list(dst.lines), str(dst)
+                src.append('QZ-added-to-the-source')
+                if dst.lines != snap_lines or str(dst) != snap_str:
+                    _viol(out, 'block-changed-through-the-block-it-was-made-from', case,
+                          route=route, got=str(dst)[:120])
         elif kind == 'append':
             tb = TB(T.decode(case['base'], TB))
             expected = list(T.ref_lines(case['base']))
@@ -288,6 +319,7 @@ def main(tier: str) -> int:
     total = 20000 if tier == 'quick' else 1000000
     per = 500 if tier == 'quick' else 5000
     run.require('lines_compared', 'invariant_evaluations', 'concatenations', 'trims', 'chunks',
+                'blocks_poured_into_blocks',
                 'cond_chunks', 'roundtrips', 'cases_with_line_boundaries')
     jobs = [(run.seed, i, per) for i in range(total // per)]
     for _item, res in run.pmap(_worker, jobs):
